@@ -562,8 +562,29 @@ pub fn tpl_program(r: &mut Rng) -> String {
         13 => format!(
             "from [{{n = 1, {c1} = 2}}] | loop (filter n < {n} | select {{n = n + 1, {c1} = {c1} * 2}}) | sort {{-n}} | derive {{d1 = n, d2 = n}} | select {{d2, d1}}\n"
         ),
+        // query header with several (some unknown) arguments
+        14 if r.below(2) == 0 => {
+            let mut args = vec!["version:\"0.13\"", "target:sql.postgres", "zz:1", "yy:2", "ww:\"a\""];
+            r.shuffle(&mut args);
+            let k = r.range(2, 5);
+            format!("prql {}\n\nfrom {t} | select {{{c1}, {c2}}} | take {n}\n", args[..k].join(" "))
+        }
         // two errors in one source
         14 => format!("from {t} | select {{{c1}, }} | filter ( | derive = 3\nfrom {u} | select {{nope + }}\n"),
+        // several partition keys behind a pipeline split, keys dropped by a later select
+        15 if r.below(2) == 0 => {
+            let body = match r.below(3) {
+                0 => format!("sort {c4} | take 2"),
+                1 => format!("sort {{-{c4}}} | derive {{rk = rank {c4}, rs = sum {c4}}}"),
+                _ => format!("window rows:-1..1 (sort {c4} | derive ma = average {c4})"),
+            };
+            let pre = match r.below(3) {
+                0 => format!("take {n}0"),
+                1 => format!("aggregate {{{c1} = min {c1}, {c2} = min {c2}, {c3} = min {c3}, {c4} = sum {c4}}}"),
+                _ => format!("filter {c4} > {n} | take {n}00"),
+            };
+            format!("from {t} | {pre} | group {{{c1}, {c2}, {c3}}} ({body}) | select {{{c4}}}\n")
+        }
         // window functions with the same sort in two partitions
         _ => format!(
             "from {t} | group {{{c1}, {c2}}} (sort {c3} | derive {{rk = rank {c3}, rn = row_number this, lg = lag 1 {c4}}}) | sort {{{c1}, rk}} | select {{{c1}, rk, rn, lg}} | take {n}\n"
@@ -863,6 +884,7 @@ impl<'a> Gen<'a> {
             stratum: "A".into(),
             exec_seed: s,
             shuttle: false,
+            engine: String::new(),
             hash_base: 0,
             env_before: None,
             threads: vec![calls],
@@ -972,6 +994,7 @@ impl<'a> Gen<'a> {
             stratum: "B".into(),
             exec_seed: s,
             shuttle: false,
+            engine: String::new(),
             hash_base: if r.below(2) == 0 { 0 } else { 1 + (r.next_u64() >> 16) },
             env_before,
             threads,
@@ -1026,10 +1049,26 @@ impl<'a> Gen<'a> {
             sentinel.push(Call::plain(Op::SetEnv { value: None }));
         }
         sentinel.extend(self.sentinel(&mut r));
+        // two independent interleaving engines; the shuttle one (coroutines on one OS thread)
+        // shares thread-locals between simulated threads, so it is switched off entirely
+        // when the library has any (VERIF_ENGINES=threads, set by the driver)
+        let engines = std::env::var("VERIF_ENGINES").unwrap_or_default();
+        let engine = match engines.as_str() {
+            "threads" => "threads",
+            "shuttle" => "shuttle",
+            _ => {
+                if r.below(4) == 0 {
+                    "shuttle"
+                } else {
+                    "threads"
+                }
+            }
+        };
         Plan {
             stratum: "C".into(),
             exec_seed: s,
             shuttle: true,
+            engine: engine.to_string(),
             hash_base: if r.below(2) == 0 { 0 } else { 1 + (r.next_u64() >> 16) },
             env_before,
             threads,
